@@ -303,7 +303,7 @@ func c04Check(p c04Params, out *c04Obs) func(res *vrt.Result) *explore.Finding {
 }
 
 func c04Units(thorough bool) []*explore.Unit {
-	var units []*explore.Unit
+	units := c04AdminUnits(thorough)
 	evs := c04Events()
 	add := func(p c04Params, bound int) {
 		out := &c04Obs{}
@@ -420,4 +420,124 @@ func init() {
 		Quick:       150 * time.Second, Thorough: 25 * time.Minute,
 		Units: c04Units,
 	})
+}
+
+// ---- administrative calls when the active master moves or restarts
+
+type c04AdminParams struct {
+	event string // "", master-move, master-restart, master-stopped, not-running-yet, zk-error, move+zk-error
+	when  string // before | concurrent
+	warm  bool
+}
+
+func c04AdminUnits(thorough bool) []*explore.Unit {
+	var units []*explore.Unit
+	for _, ev := range []string{"", "master-move", "master-restart", "master-stopped", "not-running-yet", "zk-error", "move+zk-error", "please-hold"} {
+		for _, when := range []string{"before", "concurrent"} {
+			for _, warm := range []bool{true, false} {
+				p := c04AdminParams{event: ev, when: when, warm: warm}
+				var w *world
+				var errs [2]error
+				var prev bool
+				b := 0
+				if when == "concurrent" {
+					b = 1
+					if thorough {
+						b = 2
+					}
+				}
+				name := fmt.Sprintf("admin|event=%s|when=%s|warm=%v", ev, when, warm)
+				u := &explore.Unit{Name: name, Bound: b, Opt: vrt.Options{MaxSteps: 60000}}
+				u.Body = func() {
+					cl := stdCluster()
+					var ac gohbase.AdminClient
+					w, ac = newAdminWorld(cl)
+					errs = [2]error{}
+					if p.warm {
+						if _, err := ac.ClusterStatus(); err != nil {
+							panic("warm-up failed: " + err.Error())
+						}
+					}
+					apply := func() {
+						vrt.Yield("h:event")
+						old := cl.MasterAddr
+						switch p.event {
+						case "master-move":
+							cl.MasterAddr = "master2:16000"
+							cl.Crash(old)
+						case "master-restart":
+							cl.ResetConns(old)
+						case "master-stopped":
+							cl.SrvScript[old] = append(cl.SrvScript[old], sim.ClsMasterStopped)
+						case "not-running-yet":
+							cl.SrvScript[old] = append(cl.SrvScript[old], sim.ClsNotRunningYet, sim.ClsNotRunningYet)
+						case "please-hold":
+							cl.SrvScript[old] = append(cl.SrvScript[old], sim.ClsPleaseHold)
+						case "zk-error":
+							cl.ZKScript = append(cl.ZKScript, "connection loss", "session expired")
+						case "move+zk-error":
+							cl.MasterAddr = "master2:16000"
+							cl.ResetConns(old) // the old master stays up as a backup master
+							cl.ZKScript = append(cl.ZKScript, "connection loss")
+						}
+					}
+					fin := make(chan int, 3)
+					n := 2
+					if p.when == "before" {
+						apply()
+					} else {
+						n = 3
+						vrt.GoNamed("h:events", func() { apply(); vrt.Send(fin, -1) })
+					}
+					vrt.GoNamed("h:admin0", func() {
+						_, errs[0] = ac.ClusterStatus()
+						vrt.Send(fin, 0)
+					})
+					vrt.GoNamed("h:admin1", func() {
+						sb, _ := hrpc.NewSetBalancer(context.Background(), true)
+						prev, errs[1] = ac.SetBalancer(sb)
+						vrt.Send(fin, 1)
+					})
+					for i := 0; i < n; i++ {
+						vrt.Recv(fin)
+					}
+					// the AdminClient interface has no Close: the client is simply dropped
+					vrt.Sleep(10 * time.Minute)
+				}
+				u.Check = func(res *vrt.Result) *explore.Finding {
+					if f := baseFinding(res); f != nil {
+						if strings.HasPrefix(f.Class, "step-horizon") {
+							f.Class = "admin-call-never-succeeds-after-master-change"
+						}
+						f.Msg += "\n" + name
+						return f
+					}
+					if res.Deadlock {
+						return &explore.Finding{Class: "admin-call-blocked-forever", Msg: fmt.Sprintf("%v\n%s", res.Blocked, name)}
+					}
+					for i, e := range errs {
+						if e != nil {
+							return &explore.Finding{Class: "admin-call-failed-although-master-available", Msg: fmt.Sprintf("call %d: %v (%T)\n%s", i, e, e, name)}
+						}
+					}
+					_ = prev
+					execs := 0
+					for _, e := range w.cl.Log {
+						if e.Region == "master" {
+							execs++
+							if e.Server != "master:16000" && e.Server != "master2:16000" {
+								return &explore.Finding{Class: "admin-call-executed-by-non-master", Msg: fmt.Sprintf("%v\n%s", e, name)}
+							}
+						}
+					}
+					if execs < 2 {
+						return &explore.Finding{Class: "admin-success-without-execution", Msg: name}
+					}
+					return nil
+				}
+				units = append(units, u)
+			}
+		}
+	}
+	return units
 }
